@@ -3,6 +3,7 @@ package main
 // C01, C02, C06, C17 and the unprotect / cipher part of C04.
 
 import (
+	"encoding/hex"
 	"bytes"
 	"encoding/binary"
 	"fmt"
@@ -149,6 +150,8 @@ func propC01(c *Ctx) {
 		for _, role := range []message.Role{message.Role_Initiator, message.Role_Responder} {
 			var k *saKeys
 			var lsa *longSA
+			var prevSx *Sx
+			var prevRnd []byte
 			for i := 0; i < perSuite; i++ {
 				var sx *Sx
 				if i == 0 {
@@ -161,6 +164,16 @@ func propC01(c *Ctx) {
 					lsa = &longSA{sender: newSA(k), peers: [2]*security.IKESAKey{newSA(k), newSA(k)}}
 				}
 				rnd := g.keyBytesRandom(32)
+				// a random source that repeats itself is not the library's fault, and the receiver must still hand
+				// back each message's own payloads: the 4th message of a group is a same-size variant of the 3rd
+				// (one octet of one payload differs), protected under the 3rd's random stream (same padding, same IV)
+				if i%5 == 3 && prevSx != nil {
+					if v := sameSizeVariant(prevSx); v != nil {
+						sx, rnd = v, prevRnd
+					}
+				}
+				prevSx, prevRnd = sx, rnd
+				lsa.keepPeers = i%5 == 2 || i%5 == 3 // these two go to the SAME long-lived receivers, one after the other
 				idx++
 				if i%5 == 2 || i%5 == 4 { // traffic the long-lived objects reject, between two genuine messages
 					c01Noise(g, k, lsa, role)
@@ -237,7 +250,9 @@ func (c *Ctx) sizeLimit(g *Gen) {
 				inner, _ := buildMsg(sx).Payloads.Encode()
 				pad := (16 - (len(inner)+1)%16) % 16
 				hdr := encodeHeaderRef(sx.List[1], 46, nil)
-				ref := refBuildSK(k, role, hdr, 43, inner, g.keyBytesRandom(16), g.keyBytesRandom(pad))
+				filler := g.keyBytesRandom(pad)
+				padFill(filler, byte(pad), L)
+				ref := refBuildSK(k, role, hdr, 43, inner, g.keyBytesRandom(16), filler)
 				want := renderMsg(buildMsg(sx)).String()
 				if ur := unprotect(newSA(k), ref, !role, L%2 == 0); ur.kind != "ok" || ur.val != want {
 					c.violate(Violation{Suite: ss.Name, Kind: "property", Index: L, Class: "size-limit-reference-built:" + ur.kind,
@@ -261,8 +276,9 @@ func (c *Ctx) sizeLimit(g *Gen) {
 
 // SA objects that live across several messages of one (suite, role, keys) group
 type longSA struct {
-	sender *security.IKESAKey
-	peers  [2]*security.IKESAKey
+	sender    *security.IKESAKey
+	peers     [2]*security.IKESAKey
+	keepPeers bool // this message goes to the long-lived receivers in both header modes
 }
 
 func (c *Ctx) c01Case(s *SuiteStat, k *saKeys, lsa *longSA, role message.Role, sx *Sx, rnd []byte, idx int, corr *[]corrCase) {
@@ -283,7 +299,7 @@ func (c *Ctx) c01Case(s *SuiteStat, k *saKeys, lsa *longSA, role message.Role, s
 	bs := unhx(pres.val)
 	for hi, withHdr := range []bool{false, true} {
 		peer := lsa.peers[hi]
-		if (idx+hi)%2 == 0 {
+		if (idx+hi)%2 == 0 && !lsa.keepPeers {
 			peer = newSA(k) // a freshly built peer and a long-lived one must both accept
 		}
 		ur := unprotect(peer, bs, !role, withHdr)
@@ -703,6 +719,7 @@ func (c *Ctx) c06Case(s, s2 *SuiteStat, g *Gen, k *saKeys, lsa *longSA, role mes
 	}
 	for _, pl := range pads {
 		pad := g.bytes(pl)
+		padFill(pad, byte(pl), idx+pl/16) // random, or one of the filler conventions of other implementations
 		iv := g.keyBytesRandom(16)
 		rb := refBuildSK(k, role, hdrPlain, first, inner, iv, pad)
 		if len(rb) > 65535 {
@@ -945,4 +962,36 @@ func parseKeysLine(f []string) (*saKeys, []string) {
 	fmt.Sscan(f[2], &p)
 	k := &saKeys{st: suite{e, i, p}, d: unhx(f[3]), ai: unhx(f[4]), ar: unhx(f[5]), ei: unhx(f[6]), er: unhx(f[7]), pi: unhx(f[8]), pr: unhx(f[9])}
 	return k, f[10:]
+}
+
+// a copy of the message in which the first octet string of at least one octet inside the payload list has its
+// first octet changed (same sizes everywhere); nil when the payloads carry no octet string
+func sameSizeVariant(sx *Sx) *Sx {
+	done := false
+	var cp func(s *Sx, inPayloads bool) *Sx
+	cp = func(s *Sx, inPayloads bool) *Sx {
+		if !s.IsL {
+			if inPayloads && !done && len(s.Atom) >= 3 && s.Atom[0] == 'x' {
+				if b, err := hex.DecodeString(s.Atom[1:]); err == nil && len(b) > 0 {
+					b[0] ^= 0x5a
+					done = true
+					return X(b)
+				}
+			}
+			return &Sx{Atom: s.Atom}
+		}
+		out := &Sx{IsL: true}
+		for _, c := range s.List {
+			out.List = append(out.List, cp(c, inPayloads))
+		}
+		return out
+	}
+	if !sx.IsL || len(sx.List) != 3 {
+		return nil
+	}
+	v := L(cp(sx.List[0], false), cp(sx.List[1], false), cp(sx.List[2], true))
+	if !done {
+		return nil
+	}
+	return v
 }
